@@ -43,6 +43,11 @@ Fixpoint pd_get (kvs : list (str * pyval)) (k : str) : res pyval :=
 Definition py_encode_utf8 (s : str) : res (list N) :=
   match utf8_encode s with Some b => Ok b | None => Err ValueError end.
 
+(* an FFI as the user builds it: its cdef() strings and include()d FFIs, in call order (include() takes the
+   included FFI as it is at that moment).  ffi._cdefsources — what Verifier.__init__ hashes — is computed from this
+   by FFI._cdef / FFI.include (api.py:112, :510): regenerated in Gen.v as `cdefsources`. *)
+Inductive ffi_item := ICdef (s : str) | IInclude (u : list ffi_item).
+
 Fixpoint mapM {A B} (f : A -> res B) (l : list A) : res (list B) :=
   match l with
   | [] => Ok []
